@@ -452,6 +452,13 @@ impl<'a> World<'a> {
                 for i in e.at..e.at + e.width {
                     let f = if e.kind == "repeat" {
                         EntropyFault::RepeatPrevious
+                    } else if e.kind == "fail" {
+                        EntropyFault::Fail
+                    } else if e.kind == "longindex" {
+                        // a revocation secret whose index search runs to 33 (see C05)
+                        let mut b = Scalar::from(640647005u64).to_bytes().to_vec();
+                        b.extend_from_slice(&[0u8; 32]);
+                        EntropyFault::Bytes(b)
                     } else if e.kind == "closetag" {
                         let mut b = refc::scb(&refc::close_tag()).to_vec();
                         b.extend_from_slice(&[0u8; 32]);
@@ -1301,7 +1308,38 @@ impl<'a> World<'a> {
         };
         let mut rng = self.customer_rng(ci, pay as i32, "start");
         let ctx = ctx_for(self.plan.seed, ci, pay as i32);
-        let start_result = ready.start(&mut rng, amt, &ctx, self.cust_cfg(m));
+        let ccfg = self.cust_cfg(m);
+        let fails_planned = rng.faults.values().any(|f| *f == EntropyFault::Fail);
+        let start_result = if !fails_planned {
+            ready.start(&mut rng, amt, &ctx, ccfg)
+        } else {
+            // the entropy source may report failure inside this call: the infallible draws then
+            // panic, the party dies and comes back from its stored image with a working source.
+            // If the call returns instead, whatever it sends is judged as under healthy entropy.
+            let attempt = std::panic::catch_unwind(std::panic::AssertUnwindSafe(|| ready.start(&mut rng, amt, &ctx, ccfg)));
+            match attempt {
+                Ok(r) => {
+                    self.o.bump("probe.start_returned_despite_entropy_failure");
+                    r
+                }
+                Err(p) => {
+                    let (loc, msg) = crate::driver::take_panic();
+                    if !msg.contains(crate::rng::ENTROPY_FAILURE) {
+                        // some other panic of the library: not ours to swallow
+                        crate::driver::put_panic(loc, msg);
+                        std::panic::resume_unwind(p);
+                    }
+                    self.o.bump("fault.entropy.customer-source-failed");
+                    self.o.bump("fault.crash_restore");
+                    let again = match Stage::restore("ready", &before) {
+                        Ok(Stage::Ready(r)) => r,
+                        _ => crate::harness_error("world: the Ready image taken before start does not restore"),
+                    };
+                    let mut healthy = self.rng(ci, pay as i32, "customer/start/after-entropy-failure");
+                    again.start(&mut healthy, amt, &ctx, ccfg)
+                }
+            }
+        };
         self.note_entropy(&rng);
         match start_result {
             Ok((started, sm)) => {
